@@ -17,7 +17,7 @@ ASSUMPTIONS = ['symbols are 1-character strings (sorted_cn_paths concatenates th
                'all readable strings are enumerated when the network has <= 4000 arc combinations, otherwise only the added hypotheses are required to stay readable']
 N = {'quick': 4000, 'thorough': 300000}
 CLASSES = ['random', 'prefix_suffix', 'end_burst', 'start_burst', 'middle_burst', 'with_empty', 'permutations', 'boh', 'boh_lm', 'single', 'wide_scores', 'long_single']
-REQUIRED = ['networks_after_add_and_sort', 'hypotheses_of_class_indices', 'million_path_networks', 'bags_as_one_shot_iterables', 'default_weight_networks', 'networks_over_1000_positions', 'peaky_bags', 'wide_score_histories', 'adds_checked', 'old_readable_checked', 'weight_checked', 'paths_checked', 'boh_checked', 'single_checked']
+REQUIRED = ['hypotheses_over_4096_symbols_added', 'networks_with_raw_mass_within_1e-6_of_1', 'networks_after_add_and_sort', 'hypotheses_of_class_indices', 'million_path_networks', 'bags_as_one_shot_iterables', 'default_weight_networks', 'networks_over_1000_positions', 'peaky_bags', 'wide_score_histories', 'adds_checked', 'old_readable_checked', 'weight_checked', 'paths_checked', 'boh_checked', 'single_checked']
 KNOWN_EMPTY = 'empty hypothesis added to an empty network'
 
 
@@ -212,6 +212,20 @@ def check_paths(cn, mon, ctx, info):
         if not close(sum(pos.values()), 1.0) or min(pos.values()) < -1e-12:
             mon.violation('normalised-sums-to-1', dict(info, position=k, weights=pos))
             return
+    if cn and all(pos for pos in cn):
+        # networks whose raw mass is merely close to 1 (posteriors of a list whose tail was cut off), and the history normalise -> add a light hypothesis -> normalise
+        t0 = sum(cn[0].values())
+        for target in (1 - 4e-7, 1 + 7e-7, 1 - 9e-8):
+            n2 = cnm.normalize_cn([{k_: v_ * (target / t0) for k_, v_ in pos.items()} for pos in cn])
+            mon.count('networks_with_raw_mass_within_1e-6_of_1')
+            bad = [k for k, pos in enumerate(n2) if not close(sum(pos.values()), 1.0)]
+            if bad:
+                mon.violation('normalised-sums-to-1', dict(info, position=bad[0], total=sum(n2[bad[0]].values()), note='raw mass %r before normalisation' % target))
+                break
+        n3 = cnm.normalize_cn(cnm.add_hypothese(copy.deepcopy(ncn), 'ab', 7e-7))
+        bad = [k for k, pos in enumerate(n3) if not close(sum(pos.values()), 1.0)]
+        if bad:
+            mon.violation('normalised-sums-to-1', dict(info, position=bad[0], total=sum(n3[bad[0]].values()), note='a hypothesis of weight 7e-7 was added to the normalised network, which was then normalised again'))
     nprod = 1
     for pos in ncn:
         nprod *= len(pos)
@@ -346,8 +360,37 @@ def check(case, mon, ctx):
         check_paths(cn, mon, ctx, {'history': hh, 'scores': ss})
 
 
+def long_hypotheses(mon, ctx):
+    """a hypothesis of more than 4096 symbols added to a network of as many positions (a whole paragraph decoded as one line): more than 2^24 alignment cells"""
+    cnm = ctx.cnm
+    rng = np.random.default_rng([ctx.seed, 14, 4242])
+    for n in (4100 + 2 * int(rng.integers(0, 4)), 4101 + 2 * int(rng.integers(0, 4))):          # an even and an odd number of positions
+        long_hypothesis(mon, ctx, rng, n)
+
+
+def long_hypothesis(mon, ctx, rng, n):
+    cnm = ctx.cnm
+    base = ''.join(rng.choice(list('abc'), size=n))
+    pos = int(rng.integers(100, n - 100))
+    longer = base[:pos] + 'c' + base[pos:]
+    cn = cnm.add_hypothese([], base, 0.7)
+    cn = cnm.add_hypothese(cn, longer, 0.3)
+    mon.count('hypotheses_over_4096_symbols_added')
+    mon.count('extra_evaluations')
+    mon.cur_desc = {'leg': 'long hypotheses', 'lengths': [len(base), len(longer)], 'inserted_at': pos}
+    if not readable(cn, longer):
+        mon.violation('new-readable', {'lengths': [len(base), len(longer)], 'positions': len(cn), 'note': 'the added hypothesis of %d symbols cannot be read from the network' % len(longer)})
+    if not readable(cn, base):
+        mon.violation('old-readable', {'lengths': [len(base), len(longer)], 'positions': len(cn)})
+    bad = [k for k, p_ in enumerate(cn) if not close(sum(p_.values()), 1.0)]
+    if bad:
+        mon.violation('weight-conserved', {'lengths': [len(base), len(longer)], 'positions_with_another_total': bad[:5], 'total_there': sum(cn[bad[0]].values())})
+
+
 def extra(mon, ctx):
     """a network of 13 positions with 3 arcs each: 1 594 323 arc combinations, every one enumerated once, in non-increasing order, probabilities summing to 1"""
+    if ctx.shard == (1 if ctx.nshards > 1 else 0):
+        long_hypotheses(mon, ctx)
     if ctx.shard != 0:
         return
     cnm = ctx.cnm
